@@ -18,6 +18,7 @@ import (
 	"time"
 
 	"github.com/gopatchy/bkl"
+	"gopkg.in/yaml.v3"
 )
 
 var sentinels = []struct {
@@ -386,6 +387,160 @@ func runFormat(op map[string]any) (any, error) {
 	return nil, fmt.Errorf("format: need encode or decode")
 }
 
+// rawWire serialises what a third-party decoder handed to bkl, keeping the Go types apart
+// (the model's `Raw`): this is the input of normalize.go.
+func rawWire(v any) any {
+	switch v2 := v.(type) {
+	case nil:
+		return nil
+	case bool, string:
+		return v2
+	case int:
+		return map[string]any{"int": strconv.Itoa(v2)}
+	case int64:
+		return map[string]any{"int64": strconv.FormatInt(v2, 10)}
+	case float64:
+		return map[string]any{"float": strconv.FormatFloat(v2, 'g', -1, 64)}
+	case json.Number:
+		f, err := v2.Float64()
+		fr := strconv.FormatFloat(f, 'g', -1, 64)
+		if err != nil {
+			fr = ""
+		}
+		return map[string]any{"jnum": v2.String(), "fr": fr}
+	case []any:
+		ret := make([]any, 0, len(v2))
+		for _, x := range v2 {
+			ret = append(ret, rawWire(x))
+		}
+		return ret
+	case map[string]any:
+		return map[string]any{"map": rawFields(v2)}
+	case []map[string]any:
+		ret := make([]any, 0, len(v2))
+		for _, x := range v2 {
+			ret = append(ret, rawFields(x))
+		}
+		return map[string]any{"lom": ret}
+	case map[any]any:
+		return map[string]any{"mapany": true}
+	default:
+		return map[string]any{"other": fmt.Sprintf("%T", v)}
+	}
+}
+
+func rawFields(m map[string]any) []any {
+	keys := make([]string, 0, len(m))
+	for k := range m {
+		keys = append(keys, k)
+	}
+	sort.Strings(keys)
+	ret := make([]any, 0, len(keys))
+	for _, k := range keys {
+		ret = append(ret, []any{k, rawWire(m[k])})
+	}
+	return ret
+}
+
+// yamlNodeWire serialises a yaml.v3 node tree (the input of yaml.go:yamlTranslateNode), following
+// aliases; the tag is yaml.v3's own resolution (Node.ShortTag), "fr" is %v of strconv.ParseFloat.
+func yamlNodeWire(n *yaml.Node, depth int) any {
+	if depth > 200 {
+		return map[string]any{"k": "toodeep"}
+	}
+	switch n.Kind {
+	case yaml.DocumentNode:
+		if len(n.Content) == 0 {
+			return map[string]any{"k": "empty"}
+		}
+		return yamlNodeWire(n.Content[0], depth+1)
+	case yaml.SequenceNode:
+		items := make([]any, 0, len(n.Content))
+		for _, c := range n.Content {
+			items = append(items, yamlNodeWire(c, depth+1))
+		}
+		return map[string]any{"k": "seq", "items": items}
+	case yaml.MappingNode:
+		pairs := []any{}
+		for i := 0; i+1 < len(n.Content); i += 2 {
+			pairs = append(pairs, []any{n.Content[i].Value, yamlNodeWire(n.Content[i+1], depth+1)})
+		}
+		return map[string]any{"k": "map", "pairs": pairs}
+	case yaml.ScalarNode:
+		fr := ""
+		if f, err := strconv.ParseFloat(n.Value, 64); err == nil {
+			fr = strconv.FormatFloat(f, 'g', -1, 64)
+		}
+		return map[string]any{"k": "scalar", "tag": n.ShortTag(), "v": n.Value, "fr": fr}
+	case yaml.AliasNode:
+		return yamlNodeWire(n.Alias, depth+1)
+	case 0:
+		return map[string]any{"k": "empty"}
+	}
+	return map[string]any{"k": fmt.Sprintf("kind%d", n.Kind)}
+}
+
+// runDecode: one text in one format -> (a) what the third-party decoder produced (raw Go types /
+// yaml.v3 node tree) and (b) what bkl's loader makes of the same text (MergeFile: decode,
+// yamlTranslateNode, normalize).  The model maps (a) to (b).
+func runDecode(op map[string]any) (any, error) {
+	name, _ := op["format"].(string)
+	b64, _ := op["text"].(string)
+	text, err := base64.StdEncoding.DecodeString(b64)
+	if err != nil {
+		return nil, err
+	}
+	ret := map[string]any{}
+	f, err := bkl.GetFormat(name)
+	if err != nil {
+		return errObj(err), nil
+	}
+	if name == "yaml" || name == "yml" {
+		var node yaml.Node
+		if err := yaml.Unmarshal(text, &node); err != nil {
+			ret["nodeerr"] = err.Error()
+		} else {
+			ret["node"] = yamlNodeWire(&node, 0)
+		}
+	} else {
+		raws, err := f.UnmarshalStream(text)
+		if err != nil {
+			ret["rawerr"] = err.Error()
+		} else {
+			rs := make([]any, 0, len(raws))
+			for _, r := range raws {
+				rs = append(rs, rawWire(r))
+			}
+			ret["raw"] = rs
+		}
+	}
+	dir, err := os.MkdirTemp("", "bklgo-decode-")
+	if err != nil {
+		return nil, err
+	}
+	defer os.RemoveAll(dir)
+	path := dir + "/f." + name
+	if err := os.WriteFile(path, text, 0o600); err != nil {
+		return nil, err
+	}
+	p, err := bkl.New()
+	if err != nil {
+		return nil, err
+	}
+	if err := p.MergeFile(path); err != nil {
+		ret["err"] = errClass(err)
+		ret["msg"] = err.Error()
+		return ret, nil
+	}
+	docs := p.Documents()
+	out := make([]any, 0, len(docs))
+	for _, d := range docs {
+		out = append(out, toWire(d.Data))
+	}
+	ret["docs"] = out
+	return ret, nil
+}
+
 func setEnv(op map[string]any) {
 	env, ok := op["env"].(map[string]any)
 	if !ok {
@@ -413,6 +568,8 @@ func dispatch(op map[string]any) (ret any, err error) {
 		return runFiles(op)
 	case "format":
 		return runFormat(op)
+	case "decode":
+		return runDecode(op)
 	default:
 		return nil, fmt.Errorf("unknown op %v", op["op"])
 	}
